@@ -113,7 +113,9 @@ func (tree *trie) Get(key []byte) (value uint32, ok bool) {
 		}
 	}
 
-	if tree.labelVec.GetLabel(pos) == labelTerminator && !tree.hasChildVec.IsSet(pos) {
+	// the terminator is the first label of a node which has other labels too,
+	// the only label of a node is a real label(0xff is a legal byte of a key).
+	if tree.nodeSize(pos) > 1 && tree.labelVec.GetLabel(pos) == labelTerminator && !tree.hasChildVec.IsSet(pos) {
 		if ok = tree.suffixVec.CheckSuffix(key, depth, pos); ok {
 			valPos := tree.valuePos(pos)
 			value = tree.values.Get(valPos)
